@@ -46,12 +46,13 @@ const (
 	fForIf     = "C03-vfor-on-if-member"               // falsy v-if member carrying v-for: following v-else-if (and its v-else) dropped
 	fForSkip   = "C03-vfor-member-after-chosen-branch" // v-else-if chosen; a later member with v-for runs as a loop of its own and lets the v-else render too
 	fForIfPre  = "C03-vfor-on-if-member-vpre-tail"     // truthy v-if member carrying v-for: a later member with v-pre is emitted too
+	fClassSne  = "C03-class-object-strict-inequality"  // :class="{k: a !== b}" leaves k out where v-if="a !== b" holds
 	fClassNil  = "C03-class-object-nil-adds-class"     // :class="{k: x}" adds k for nil / undefined x
 	fClassStr  = "C03-class-object-string-reparsed"    // :class="{k: x}" drops k for strings like "0", " "
 	fShowChain = "C03-vshow-on-chain-member-ignored"   // v-show on an element that also carries v-if / v-else(-if) is ignored
 )
 
-var allFindings = []string{fForElse, fForIf, fForIfPre, fForSkip, fClassNil, fClassStr, fShowChain}
+var allFindings = []string{fClassSne, fForElse, fForIf, fForIfPre, fForSkip, fClassNil, fClassStr, fShowChain}
 
 func openFindings() map[string]bool {
 	f := kf.Load()
@@ -194,7 +195,7 @@ func TestProp(t *testing.T) {
 	shard, shards := run.Shard()
 
 	// ---- Family B: the truthiness table, exhaustive over vals.Scalars() + vals.Containers()
-	table := append(vals.Scalars(), vals.Containers()...)
+	table := append(append(vals.Scalars(), vals.Containers()...), extraValues...)
 	ok := true
 	for i, v := range table {
 		if i%shards != shard {
@@ -217,7 +218,7 @@ func TestProp(t *testing.T) {
 		}
 	}
 	if ok {
-		rec.Exhaustive(fmt.Sprintf("truthiness table: %d values (every scalar kind and width, strings, nil, missing, pointers, slices, maps, structs) x %d positions (%d on the plain name, 7 for each of %d operand path forms incl. a loop variable shadowing a root variable of the opposite truthiness)", len(table), len(positions), basePositionCount, len(forms)))
+		rec.Exhaustive(fmt.Sprintf("truthiness table: %d values (every scalar kind and width, strings, nil, missing, pointers, slices, maps, structs) x %d positions (%d on the plain name, up to 7 for each of %d operand forms: paths, a loop variable shadowing a root variable of the opposite truthiness, variables named like template functions, booleans written as === / !== / == / != comparisons)", len(table), len(positions), basePositionCount, len(allForms())))
 	}
 
 	// ---- Family A: chain shapes x truth assignments x separators x siblings x placements x member decorations
